@@ -76,6 +76,8 @@ func (k Keeper) AddAllowedBidders(ctx context.Context, auctionId uint64, allowed
 		if err != nil {
 			return err
 		}
+		// The entry belongs to the auction it is stored under, whatever id the caller put in the record
+		ab.AuctionId = auctionId
 		if err := k.AllowedBidder.Set(ctx, collections.Join(auctionId, bidder), ab); err != nil {
 			return err
 		}
